@@ -276,20 +276,33 @@ func sliceLeaves(env *core.Env, v ssa.Value, depth int) map[string]bool {
 			}
 		case *ssa.Extract:
 			out["extract:"+core.Key(x)] = true
+			if call, ok := x.Tuple.(*ssa.Call); ok {
+				name := core.CalleeName(&call.Call)
+				out[fmt.Sprintf("call:%s#%d", name, x.Index)] = true
+				callee := call.Call.StaticCallee()
+				if d > 0 && callee != nil && callee.Blocks != nil && callee.Pkg != nil && strings.HasPrefix(callee.Pkg.Pkg.Path(), core.Module) {
+					for _, b := range callee.Blocks {
+						for _, in := range b.Instrs {
+							if r, ok := in.(*ssa.Return); ok && x.Index < len(r.Results) {
+								walk(r.Results[x.Index], d-1)
+							}
+						}
+					}
+					if call.Call.IsInvoke() {
+						walk(call.Call.Value, d)
+					}
+					for _, a := range call.Call.Args {
+						_ = a
+					}
+					return
+				}
+			}
 			walk(x.Tuple, d)
 		case *ssa.UnOp:
 			if x.Op.String() == "*" {
 				out["load:"+core.Key(x.X)] = true
 				// loads of local allocs: follow stores
-				if al, ok := x.X.(*ssa.Alloc); ok {
-					for _, ref := range *al.Referrers() {
-						if st, ok := ref.(*ssa.Store); ok && st.Addr == al {
-							walk(st.Val, d)
-						}
-					}
-				} else {
-					walk(x.X, d)
-				}
+				walk(x.X, d)
 			} else {
 				walk(x.X, d)
 			}
